@@ -25,7 +25,7 @@ package stree
 //@ pred local(x *node[T], cmp func(T, T) int) := x in x.desc && rank(cmp, x.X) in x.keys && x.cnt == 1 + cntOf(x.left) + cntOf(x.right) && x.cnt >= 1
 //@+     && (x.left != nil ==> allocated(x.left) && x.left in x.desc) && (x.right != nil ==> allocated(x.right) && x.right in x.desc)
 //@+     && (forall y ref :: {y in x.desc} y in x.desc <==> (y == x || inD(x.left, y) || inD(x.right, y)))
-//@+     && (forall k int :: {k in x.keys} k in x.keys <==> (k == rank(cmp, x.X) || inK(x.left, k) || inK(x.right, k)))
+//@+     && (forall k int :: {k in x.keys} {k in x.left.keys} {k in x.right.keys} k in x.keys <==> (k == rank(cmp, x.X) || inK(x.left, k) || inK(x.right, k)))
 //@+     && (forall k int :: {k in x.left.keys} inK(x.left, k) ==> k < rank(cmp, x.X))
 //@+     && (forall k int :: {k in x.right.keys} inK(x.right, k) ==> k > rank(cmp, x.X))
 //@+     && !inD(x.left, x) && !inD(x.right, x)
@@ -267,7 +267,14 @@ package stree
 // of the tree outside the subtree of a path node compares with all keys of that subtree the way it compares with the
 // node's own key (the subtree's keys are an interval of the tree's keys). Established by pathTo and Root, kept by
 // every move; it is what makes "the next key" a statement about the whole tree.
-//@ pred ordPath(p []*node[T], cmp func(T, T) int) := len(p) > 0 ==> treeOK(p[0], cmp)
+// treeRO is treeOK with goal-directed triggers on the transitivity clauses (an instance is produced only when its
+// conclusion is already a term of the query): the same formula, so treeOK implies it, but a hypothesis treeRO does not
+// unfold the tree level after level (left(left(...))) the way treeOK does. Cursors only read the tree.
+//@ pred closedRO(y *node[T]) := (forall z *node[T] :: {z in y.desc} z in y.desc ==> (forall w ref :: {w in z.desc, w in y.desc} w in z.desc ==> w in y.desc) && (forall k int :: {k in z.keys, k in y.keys} k in z.keys ==> k in y.keys && z.rep[k] == y.rep[k]))
+//@ pred treeRO(n *node[T], cmp func(T, T) int) := n != nil ==> allocated(n) && n in n.desc
+//@+     && (forall y *node[T] :: {y in n.desc} y in n.desc ==> y != nil && allocated(y) && local(y, cmp) && closedRO(y))
+//@ pred treeInvRO(t *Tree[T]) := t != nil && treeRO(t.root, t.compare) && (forall k int :: {k in t.elems} k in t.elems <==> inK(t.root, k))
+//@ pred ordPath(p []*node[T], cmp func(T, T) int) := len(p) > 0 ==> treeRO(p[0], cmp)
 //@+     && (forall j int :: {p[j]} 0 <= j && j < len(p) ==> p[j] in p[0].desc)
 //@+     && (forall j int, k int, m int :: {p[j], k in p[0].keys, m in p[j].keys} 0 <= j && j < len(p) && k in p[0].keys && !(k in p[j].keys) && m in p[j].keys ==> ((k < m) <==> (k < rank(cmp, p[j].X))))
 //@ pred samePrefix(c *Cursor[T], n int) := forall k int :: {c.path[k]} 0 <= k && k < n && k < len(c.path) ==> c.path[k] == old(c.path[k])
@@ -334,6 +341,7 @@ package stree
 //@   loop 1: invariant [C03] prefix: samePrefix(c, old(len(c.path)))
 //@   loop 1: invariant [C03] leftward: forall a int, b int :: {c.path[a], c.path[b]} old(len(c.path)) <= b && b == a + 1 && b < len(c.path) ==> c.path[b] == c.path[a].left
 //@   loop 1: invariant [C03] ord: ordPath(c.path, cmp)
+//@   at after "min = min.left": assert [C03] min in c.path[0].desc
 //@   loop 1: invariant [C03] least: min in old(cur(c)).desc && rank(cmp, min.X) in old(cur(c)).keys && forall k int :: {k in old(cur(c)).keys} k in old(cur(c)).keys ==> k in min.keys || k > rank(cmp, min.X)
 //@
 //@ func (*Cursor).Max
@@ -350,12 +358,17 @@ package stree
 //@   loop 1: invariant [C03] prefix: samePrefix(c, old(len(c.path)))
 //@   loop 1: invariant [C03] rightward: forall a int, b int :: {c.path[a], c.path[b]} old(len(c.path)) <= b && b == a + 1 && b < len(c.path) ==> c.path[b] == c.path[a].right
 //@   loop 1: invariant [C03] ord: ordPath(c.path, cmp)
+//@   at after "max = max.right": assert [C03] max in c.path[0].desc
 //@   loop 1: invariant [C03] greatest: max in old(cur(c)).desc && rank(cmp, max.X) in old(cur(c)).keys && forall k int :: {k in old(cur(c)).keys} k in old(cur(c)).keys ==> k in max.keys || k < rank(cmp, max.X)
 //@
 //@ func (*Cursor).findNext
 //@   ghost cmp func(T, T) int
 //@   requires [C03] c != nil && len(c.path) > 0 && pathOK(c) && ordPath(c.path, cmp)
-//@   ensures  [C03] upMax: cur(c).right == nil ==> forall k int :: {k in c.path[result.1 + 1].keys} k in c.path[result.1 + 1].keys ==> k <= rank(cmp, cur(c).X)
+//@   ensures  [C03] upMax: cur(c).right == nil ==> rank(cmp, cur(c).X) in c.path[result.1 + 1].keys && forall k int :: {k in c.path[result.1 + 1].keys} k in c.path[result.1 + 1].keys ==> k <= rank(cmp, cur(c).X)
+//@   ensures  [C03] downNext: cur(c).right != nil ==> rank(cmp, result.0.X) in c.path[0].keys && rank(cmp, result.0.X) > rank(cmp, cur(c).X)
+//@   ensures  [C03] upNext: cur(c).right == nil && result.1 >= 0 ==> rank(cmp, c.path[result.1].X) in c.path[0].keys && rank(cmp, c.path[result.1].X) > rank(cmp, cur(c).X)
+//@   at return 1: assert [C03] result.0 in c.path[0].desc
+//@   at return 1: assert [C03] rank(cmp, result.0.X) in c.path[len(c.path) - 1].keys
 //@   loop 1: invariant [C03] max: rank(cmp, cur(c).X) in c.path[i].keys && forall k int :: {k in c.path[i].keys} k in c.path[i].keys ==> k <= rank(cmp, cur(c).X)
 //@   ensures  [C03] down: cur(c).right != nil ==> result.0 == cur(c).right && result.1 == -1
 //@   ensures  [C03] up: cur(c).right == nil ==> result.0 == nil && -1 <= result.1 && result.1 < len(c.path) - 1
@@ -368,7 +381,11 @@ package stree
 //@ func (*Cursor).findPrev
 //@   ghost cmp func(T, T) int
 //@   requires [C03] c != nil && len(c.path) > 0 && pathOK(c) && ordPath(c.path, cmp)
-//@   ensures  [C03] upMin: cur(c).left == nil ==> forall k int :: {k in c.path[result.1 + 1].keys} k in c.path[result.1 + 1].keys ==> k >= rank(cmp, cur(c).X)
+//@   ensures  [C03] upMin: cur(c).left == nil ==> rank(cmp, cur(c).X) in c.path[result.1 + 1].keys && forall k int :: {k in c.path[result.1 + 1].keys} k in c.path[result.1 + 1].keys ==> k >= rank(cmp, cur(c).X)
+//@   ensures  [C03] downPrev: cur(c).left != nil ==> rank(cmp, result.0.X) in c.path[0].keys && rank(cmp, result.0.X) < rank(cmp, cur(c).X)
+//@   ensures  [C03] upPrev: cur(c).left == nil && result.1 >= 0 ==> rank(cmp, c.path[result.1].X) in c.path[0].keys && rank(cmp, c.path[result.1].X) < rank(cmp, cur(c).X)
+//@   at return 1: assert [C03] result.0 in c.path[0].desc
+//@   at return 1: assert [C03] rank(cmp, result.0.X) in c.path[len(c.path) - 1].keys
 //@   loop 1: invariant [C03] min: rank(cmp, cur(c).X) in c.path[i].keys && forall k int :: {k in c.path[i].keys} k in c.path[i].keys ==> k >= rank(cmp, cur(c).X)
 //@   ensures  [C03] down: cur(c).left != nil ==> result.0 == cur(c).left && result.1 == -1
 //@   ensures  [C03] up: cur(c).left == nil ==> result.0 == nil && -1 <= result.1 && result.1 < len(c.path) - 1
@@ -379,13 +396,21 @@ package stree
 //@   loop 1: decreases j + 1
 //@
 //@ func (*Cursor).HasNext
-//@   requires [C03] c != nil ==> pathOK(c)
+//@   ghost cmp func(T, T) int
+//@   requires [C03] c != nil ==> pathOK(c) && ordPath(c.path, cmp)
+//@   ensures  [C03] more: c != nil && len(c.path) != 0 && result ==> !(forall k int :: {k in c.path[0].keys} k in c.path[0].keys ==> k <= rank(cmp, cur(c).X))
+//@   ensures  [C03] nomore: c != nil && len(c.path) != 0 && !result ==> forall k int :: {k in c.path[0].keys} k in c.path[0].keys ==> k <= rank(cmp, cur(c).X)
+//@   call findNext#1: cmp = cmp
 //@   ensures  [C03] invalid: c == nil || len(c.path) == 0 ==> !result
 //@   ensures  [C03] down: c != nil && len(c.path) != 0 && cur(c).right != nil ==> result
 //@   ensures  [C03] up: c != nil && len(c.path) != 0 && cur(c).right == nil ==> (result <==> !(forall a int, b int :: {c.path[a], c.path[b]} 0 <= a && b == a + 1 && b < len(c.path) ==> c.path[b] != c.path[a].left))
 //@
 //@ func (*Cursor).HasPrev
-//@   requires [C03] c != nil ==> pathOK(c)
+//@   ghost cmp func(T, T) int
+//@   requires [C03] c != nil ==> pathOK(c) && ordPath(c.path, cmp)
+//@   ensures  [C03] more: c != nil && len(c.path) != 0 && result ==> !(forall k int :: {k in c.path[0].keys} k in c.path[0].keys ==> k >= rank(cmp, cur(c).X))
+//@   ensures  [C03] nomore: c != nil && len(c.path) != 0 && !result ==> forall k int :: {k in c.path[0].keys} k in c.path[0].keys ==> k >= rank(cmp, cur(c).X)
+//@   call findPrev#1: cmp = cmp
 //@   ensures  [C03] invalid: c == nil || len(c.path) == 0 ==> !result
 //@   ensures  [C03] down: c != nil && len(c.path) != 0 && cur(c).left != nil ==> result
 //@   ensures  [C03] up: c != nil && len(c.path) != 0 && cur(c).left == nil ==> (result <==> !(forall a int, b int :: {c.path[a], c.path[b]} 0 <= a && b == a + 1 && b < len(c.path) ==> c.path[b] != c.path[a].right))
@@ -398,7 +423,7 @@ package stree
 //@   ensures  [C03] last: c != nil && old(len(c.path)) != 0 && len(c.path) == 0 ==> forall k int :: {k in old(c.path[0]).keys} k in old(c.path[0]).keys ==> k <= old(rank(cmp, cur(c).X))
 //@   call findNext#1: cmp = cmp
 //@   loop 1: invariant [C03] ord: ordPath(c.path, cmp)
-//@   loop 1: invariant [C03] least: len(c.path) > old(len(c.path)) ==> cur(c) in old(cur(c).right).desc && forall k int :: {k in old(cur(c).right).keys} k in old(cur(c).right).keys ==> k in cur(c).keys || k > rank(cmp, cur(c).X)
+//@   loop 1: invariant [C03] least: len(c.path) > old(len(c.path)) ==> cur(c) in old(cur(c).right).desc && rank(cmp, cur(c).X) in old(cur(c).right).keys && forall k int :: {k in old(cur(c).right).keys} k in old(cur(c).right).keys ==> k in cur(c).keys || k > rank(cmp, cur(c).X)
 //@   ensures  [C03] invalid: c != nil && old(len(c.path)) == 0 ==> len(c.path) == 0
 //@   ensures  [C03] down: c != nil && old(len(c.path)) != 0 && old(cur(c).right) != nil ==> len(c.path) > old(len(c.path)) && samePrefix(c, old(len(c.path))) && cur(c).left == nil
 //@   ensures  [C03] downFirst: c != nil && old(len(c.path)) != 0 && old(cur(c).right) != nil ==> forall a int, b int :: {c.path[a], c.path[b]} b == old(len(c.path)) && b == a + 1 ==> c.path[b] == c.path[a].right
@@ -421,7 +446,7 @@ package stree
 //@   ensures  [C03] first: c != nil && old(len(c.path)) != 0 && len(c.path) == 0 ==> forall k int :: {k in old(c.path[0]).keys} k in old(c.path[0]).keys ==> k >= old(rank(cmp, cur(c).X))
 //@   call findPrev#1: cmp = cmp
 //@   loop 1: invariant [C03] ord: ordPath(c.path, cmp)
-//@   loop 1: invariant [C03] greatest: len(c.path) > old(len(c.path)) ==> cur(c) in old(cur(c).left).desc && forall k int :: {k in old(cur(c).left).keys} k in old(cur(c).left).keys ==> k in cur(c).keys || k < rank(cmp, cur(c).X)
+//@   loop 1: invariant [C03] greatest: len(c.path) > old(len(c.path)) ==> cur(c) in old(cur(c).left).desc && rank(cmp, cur(c).X) in old(cur(c).left).keys && forall k int :: {k in old(cur(c).left).keys} k in old(cur(c).left).keys ==> k in cur(c).keys || k < rank(cmp, cur(c).X)
 //@   ensures  [C03] invalid: c != nil && old(len(c.path)) == 0 ==> len(c.path) == 0
 //@   ensures  [C03] down: c != nil && old(len(c.path)) != 0 && old(cur(c).left) != nil ==> len(c.path) > old(len(c.path)) && samePrefix(c, old(len(c.path))) && cur(c).right == nil
 //@   ensures  [C03] downFirst: c != nil && old(len(c.path)) != 0 && old(cur(c).left) != nil ==> forall a int, b int :: {c.path[a], c.path[b]} b == old(len(c.path)) && b == a + 1 ==> c.path[b] == c.path[a].left
@@ -437,13 +462,20 @@ package stree
 //@   loop 1: invariant [C03] rest: forall a int, b int :: {c.path[a], c.path[b]} old(len(c.path)) < b && b == a + 1 && b < len(c.path) ==> c.path[b] == c.path[a].right
 //@
 //@ func (*Cursor).Clone
-//@   requires [C03] c != nil ==> pathOK(c)
+//@   ghost cmp func(T, T) int
+//@   requires [C03] c != nil ==> pathOK(c) && ordPath(c.path, cmp)
+//@   ensures  [C03] ord: result != nil ==> ordPath(result.path, cmp)
 //@   ensures  [C03] invalid: c == nil || len(c.path) == 0 ==> result == c
 //@   ensures  [C03] copy: c != nil && len(c.path) != 0 ==> result != nil && fresh(result) && pathOK(result) && len(result.path) == len(c.path) && fresh(result.path) && forall k int :: {result.path[k]} 0 <= k && k < len(c.path) ==> result.path[k] == c.path[k]
 //@   ensures  [C03] untouched: c != nil ==> len(c.path) == old(len(c.path)) && samePrefix(c, len(c.path))
 //@
 //@ func (*node).pathTo
 //@   role compare ord
+//@   requires [C03] treeRO(n, compare)
+//@   ensures [C03] ord: ordPath(result, compare)
+//@   ensures [C03] present: inK(n, rank(compare, key)) <==> (len(result) > 0 && ord(compare, key, result[len(result) - 1].X) == 0)
+//@   loop 1: invariant [C03] ord: ordPath(path, compare) && (cur != nil ==> n != nil && cur in n.desc)
+//@   loop 1: invariant [C03] search: inK(n, rank(compare, key)) <==> inK(cur, rank(compare, key))
 //@   ensures [C03] path: nodePath(result) && (n == nil <==> len(result) == 0) && (len(result) > 0 ==> result[0] == n)
 //@   ensures [C03] found: len(result) > 0 ==> ord(compare, key, result[len(result) - 1].X) == 0 || (ord(compare, key, result[len(result) - 1].X) < 0 && result[len(result) - 1].left == nil) || (ord(compare, key, result[len(result) - 1].X) > 0 && result[len(result) - 1].right == nil)
 //@   ensures [C03] steered: forall a int, b int :: {result[a], result[b]} 0 <= a && b == a + 1 && b < len(result) ==> (ord(compare, key, result[a].X) < 0 && result[b] == result[a].left) || (ord(compare, key, result[a].X) > 0 && result[b] == result[a].right)
@@ -454,10 +486,13 @@ package stree
 //@ func (*Tree).Cursor
 //@   ensures [C03] absent: result == nil || (fresh(result) && len(result.path) > 0 && pathOK(result) && result.path[0] == t.root && ord(t.compare, cur(result).X, key) == 0)
 //@   ensures [C03] steered: result != nil ==> forall a int, b int :: {result.path[a], result.path[b]} 0 <= a && b == a + 1 && b < len(result.path) ==> (ord(t.compare, key, result.path[a].X) < 0 && result.path[b] == result.path[a].left) || (ord(t.compare, key, result.path[a].X) > 0 && result.path[b] == result.path[a].right)
-//@   requires t != nil
+//@   requires [C03] treeInvRO(t)
+//@   ensures [C03] ord: result != nil ==> ordPath(result.path, t.compare)
+//@   ensures [C03] present: result != nil <==> rank(t.compare, key) in t.elems
 //@
 //@ func (*Tree).Root
-//@   requires t != nil
+//@   requires [C03] treeInvRO(t)
+//@   ensures [C03] ord: result != nil ==> ordPath(result.path, t.compare)
 //@   ensures [C03] empty: t.root == nil ==> result == nil
 //@   ensures [C03] root: t.root != nil ==> result != nil && fresh(result) && len(result.path) == 1 && result.path[0] == t.root && pathOK(result)
 //@
